@@ -2043,4 +2043,100 @@ def shareLines (c : Nat) (corpora : List (Corpus α)) (r : Nat × Nat) : List α
 /-- the file lines a column handed out -/
 def linesOfRun (res : List (Nat × Bulk α) × List Nat) : List α := (res.1.map (·.2)).flatMap fun b => srcLines b.body
 
+/-! ## from the track specification to the document sets (`_create_corpora`) -/
+
+/-- the data file of a document set is as the MOST SPECIFIC declaration says: its own
+    "includes-action-and-meta-data" if it has one, else the corpus', else without action lines -/
+def DocSpec.WF (c : CorpusSpec α) (d : DocSpec α) : Prop :=
+  d.numDocs ≤ 2^50 ∧ d.lines.length = d.numDocs * (if DocSpec.declared c d = true then 2 else 1)
+
+theorem resolveDoc_spec {indices streams : List Nat} {c : CorpusSpec α} {d : DocSpec α} {x : DocSet α}
+    (h : resolveDoc indices streams c d = some x) :
+    x.lines = d.lines ∧ x.numDocs = d.numDocs ∧ x.withMeta = DocSpec.declared c d := by
+  unfold resolveDoc at h
+  by_cases hm : DocSpec.declared c d = true
+  · rw [if_pos hm] at h
+    cases h
+    exact ⟨rfl, rfl, hm.symm⟩
+  · rw [if_neg hm] at h
+    cases ht : docTargets indices streams c d with
+    | none => rw [ht] at h; cases h
+    | some t =>
+      rw [ht] at h
+      cases h
+      refine ⟨rfl, rfl, ?_⟩
+      cases hd : DocSpec.declared c d with
+      | true => exact absurd hd hm
+      | false => rfl
+
+theorem resolveDocs_spec {indices streams : List Nat} {c : CorpusSpec α} :
+    ∀ {ds : List (DocSpec α)} {xs : Corpus α}, resolveDocs indices streams c ds = some xs →
+      (∀ d ∈ ds, DocSpec.WF c d) → (∀ x ∈ xs, x.WF) ∧ xs.flatMap (·.lines) = ds.flatMap (·.lines)
+  | [], xs, h, _ => by
+    simp only [resolveDocs, Option.some.injEq] at h
+    subst h
+    exact ⟨fun x hx => (by cases hx), rfl⟩
+  | d :: ds, xs, h, hwf => by
+    unfold resolveDocs at h
+    cases h1 : resolveDoc indices streams c d with
+    | none => rw [h1] at h; cases h
+    | some x =>
+      rw [h1] at h
+      cases h2 : resolveDocs indices streams c ds with
+      | none => rw [h2] at h; cases h
+      | some ys =>
+        rw [h2] at h
+        cases h
+        obtain ⟨e1, e2, e3⟩ := resolveDoc_spec h1
+        obtain ⟨ih1, ih2⟩ := resolveDocs_spec h2 (fun d' hd' => hwf d' (List.mem_cons_of_mem _ hd'))
+        refine ⟨?_, ?_⟩
+        · intro y hy
+          rcases List.mem_cons.mp hy with rfl | hy
+          · have := hwf d List.mem_cons_self
+            unfold DocSpec.WF at this
+            unfold DocSet.WF
+            rw [e1, e2, e3]
+            exact this
+          · exact ih1 y hy
+        · simp only [List.flatMap_cons, e1, ih2]
+
+theorem resolveAll_spec {indices streams : List Nat} :
+    ∀ {specs : List (CorpusSpec α)} {corpora : List (Corpus α)}, resolveAll indices streams specs = some corpora →
+      (∀ c ∈ specs, ∀ d ∈ c.documents, DocSpec.WF c d) →
+      (∀ x ∈ corpora.flatten, x.WF) ∧
+        corpora.flatten.flatMap (·.lines) = specs.flatMap (fun c => c.documents.flatMap (·.lines))
+  | [], corpora, h, _ => by
+    simp only [resolveAll, Option.some.injEq] at h
+    subst h
+    exact ⟨fun x hx => (by simp at hx), rfl⟩
+  | c :: cs, corpora, h, hwf => by
+    unfold resolveAll at h
+    cases h1 : resolveDocs indices streams c c.documents with
+    | none => rw [h1] at h; cases h
+    | some x =>
+      rw [h1] at h
+      cases h2 : resolveAll indices streams cs with
+      | none => rw [h2] at h; cases h
+      | some ys =>
+        rw [h2] at h
+        cases h
+        obtain ⟨a1, a2⟩ := resolveDocs_spec h1 (hwf c List.mem_cons_self)
+        obtain ⟨ih1, ih2⟩ := resolveAll_spec h2 (fun c' hc' => hwf c' (List.mem_cons_of_mem _ hc'))
+        refine ⟨?_, ?_⟩
+        · intro y hy
+          rw [List.flatten_cons, List.mem_append] at hy
+          rcases hy with hy | hy
+          · exact a1 y hy
+          · exact ih1 y hy
+        · rw [List.flatten_cons, List.flatMap_append, List.flatMap_cons, a2, ih2]
+
+theorem resolveCorpora_spec {indices streams : List Nat} {specs : List (CorpusSpec α)} {corpora : List (Corpus α)}
+    (h : resolveCorpora indices streams specs = some corpora) (hwf : ∀ c ∈ specs, ∀ d ∈ c.documents, DocSpec.WF c d) :
+    (∀ x ∈ corpora.flatten, x.WF) ∧
+      corpora.flatten.flatMap (·.lines) = specs.flatMap (fun c => c.documents.flatMap (·.lines)) := by
+  unfold resolveCorpora at h
+  split at h
+  · cases h
+  · exact resolveAll_spec h hwf
+
 end Bulk
